@@ -282,7 +282,7 @@ def flip(b, i):
     return b[:i] + bytes([b[i] ^ 1]) + b[i + 1:]
 
 
-def mutants(r, level):
+def mutants(r, level, adversarial=False):
     """Deterministic pair family around r: [(label, request)].  level 'c' (main key) or 'p' (pp-level key)."""
     s = load_spec()
     out = []
@@ -382,8 +382,11 @@ def mutants(r, level):
         put('pp-append', 6, pp + b'\n')
         if len(pp) > 1:
             put('pp-trunc', 6, pp[:-1])
-        if args:
+        if args and (adversarial or not is_hex64((args[-1] + pp)[:64])):
+            # (a 64-hex argument moved in front of the text is the recorded extra/pp ambiguity, finding C02-S10c)
             move('move-arg-pp', _3=args[:-1], _6=args[-1] + pp)
+        if extra and adversarial:
+            move('move-extra-pp', _4=extra[:-1], _6=extra[-1] + pp)
     else:
         path, inp, ig = r[6], r[7], r[8]
         put('path-byte', 6, flip(path, len(path) - 1))
@@ -419,7 +422,7 @@ def adversarial_c(rng):
 
 
 def group(rng, r, level, maxmut):
-    ms = mutants(r, level)
+    ms = mutants(r, level, {'C02-S10b', 'C02-S10c'} <= known_ids())
     if len(ms) > maxmut:
         ms = rng.shuffle(ms)[:maxmut]
     return [[b'base'] + [l.encode() for l, _ in ms], [r] + [m for _, m in ms]]
@@ -584,7 +587,7 @@ def make_neighbours(level):
     def neighbours(case):
         labels, reqs = case
         for r in reqs[:4]:
-            ms = mutants(r, level)
+            ms = mutants(r, level, True)
             yield [[b'base'] + [l.encode() for l, _ in ms], [r] + [m for _, m in ms]]
     return neighbours
 
